@@ -1,5 +1,6 @@
 import AlatorVerif.Lemmas.FailedIff
 import AlatorVerif.Lemmas.CostBasisThm
+import AlatorVerif.Lemmas.LatestQuote
 /-!
 # C11 — valuation uses the last seen bid and satisfies the portfolio identities
 
@@ -48,6 +49,34 @@ theorem check_merges_current_quotes (v : Variant) (b : Brk σ α) (srv : Srv σ 
     | cons t ts ih => intro b0; simp only [List.foldl_cons]; rw [ih]; rfl
   unfold afterBooking
   rw [hfold]; rfl
+
+/-- **most recent quote up to the clock, over every history**: from a freshly built broker (or any state
+    meeting `QInv`), after any sequence of deposit / withdraw / send_order / check / liquidation request, for
+    both code variants, with `k = min pos (N-1)` the clock position: the clock shows `dates[k]`; the last-seen
+    quote of a symbol is the quote stored under some visited date `dates[j]`, `j ≤ k`, such that no visited
+    date after `j` quotes the symbol (a gap of any length keeps it, a later date is never read); and there
+    is no last-seen quote only if no visited date quotes the symbol -/
+theorem latest_is_most_recent_quote_up_to_the_clock (v : Variant) (ops : List (WOp σ α)) (w : World σ α)
+    (h : QInv w.b w.srv) (s : σ) :
+    let w' := runW v w ops
+    let k := min w'.srv.pos (w'.srv.dates.length - 1)
+    w'.srv.date = w'.srv.dates.getD k 0
+    ∧ (∀ q, w'.b.latest s = some q →
+        ∃ j, j ≤ k ∧ w'.srv.quotes (w'.srv.dates.getD j 0) s = some q
+          ∧ ∀ i, j < i → i ≤ k → w'.srv.quotes (w'.srv.dates.getD i 0) s = none)
+    ∧ (w'.b.latest s = none → ∀ i, i ≤ k → w'.srv.quotes (w'.srv.dates.getD i 0) s = none) := by
+  intro w' k
+  have hq : QInv w'.b w'.srv := runW_qinv v ops w h
+  have hs := seenUpTo_spec w'.srv.dates w'.srv.quotes s k
+  refine ⟨hq.clock, fun q hl => hs.1 q (by rw [← hq.seen s]; exact hl), fun hl => hs.2 (by rw [← hq.seen s]; exact hl)⟩
+
+/-- a broker as `UistBrokerBuilder::build` makes it (last-seen table = the quotes of the first date, clock at
+    position 0 of a non-empty dataset) meets the invariant -/
+theorem fresh_broker_meets_QInv (b : Brk σ α) (srv : Srv σ α) (d0 : Int) (rest : List Int)
+    (hd : srv.dates = d0 :: rest) (hp : srv.pos = 0) (hdate : srv.date = d0) (hl : b.latest = srv.quotes d0) :
+    QInv b srv := by
+  refine ⟨by simp [hd], by simp [hd, hp, hdate], fun s => ?_⟩
+  simp [hd, hp, hl, seenUpTo]
 
 /-- **cost basis**: undefined exactly for a flat position; otherwise net amount paid / net quantity over
     the trades since the position was last flat (the last prefix of the log with net quantity 0) -/
